@@ -259,6 +259,32 @@ def tlc_model_check(spec, cfg, workers=4, expect_violation=False, timeout=1800, 
     return r
 
 
+def apalache_check(spec, cinit, init, inv, length, expect_error=False, timeout=1500):
+    """Symbolic check with Apalache (inductive-invariant obligations).  Returns wall seconds.  A failed
+    obligation is a spec-level problem (ToolError), unless expect_error (refutation), where success is."""
+    out = os.path.join(WORK, "apalache", "%s-%d" % (inv, os.getpid()))
+    shutil.rmtree(out, ignore_errors=True)
+    os.makedirs(out)
+    src = os.path.join(out, spec)
+    shutil.copy(os.path.join(SPECS, spec), src)
+    t0 = time.time()
+    cmd = ["timeout", str(timeout), "apalache-mc", "check", "--cinit=" + cinit, "--init=" + init, "--inv=" + inv, "--length=%d" % length,
+           "--out-dir=" + os.path.join(out, "o"), "--run-dir=" + os.path.join(out, "r"), spec]
+    p = subprocess.run(cmd, cwd=out, stdout=subprocess.PIPE, stderr=subprocess.STDOUT)
+    txt = p.stdout.decode("utf-8", "replace")
+    wall = time.time() - t0
+    ok = "The outcome is: NoError" in txt
+    err = "The outcome is: Error" in txt
+    shutil.rmtree(out, ignore_errors=True)
+    if expect_error:
+        if not err:
+            raise ToolError("apalache refutation %s/%s: expected counterexample not found\n%s" % (spec, inv, txt[-1500:]))
+    elif not ok:
+        raise ToolError("apalache obligation %s init=%s inv=%s failed\n%s" % (spec, init, inv, txt[-2500:]))
+    log("apalache %s init=%s inv=%s length=%d: %s in %.1fs" % (spec, init, inv, length, "counterexample (expected)" if expect_error else "holds", wall))
+    return wall
+
+
 def tlc_export(spec, cfg, tag="REPLAY", workers=1, timeout=1800, extra=(), env=None):
     """GEN: run a generator spec whose invariant prints <<"TAG", json-string>> per behaviour."""
     r = run_tlc(spec, cfg, workers=workers, extra=list(extra), timeout=timeout, env=env)
